@@ -33,7 +33,10 @@ RULE = ('One offender transport sends generated sequences of hostile frames '
         'handler invocation carries an offender sid in the documented sid '
         "position; a frame the implementation's own decoder rejects reaches "
         'no handler; object-graph growth and tracemalloc peak bounded by the '
-        'bytes received; finally each bystander completes a fixed exchange. '
+        'bytes received (peak < 2 MiB + 400 B per byte of frame: a CONNECT or a '
+        'first use of a code path legitimately costs a few hundred KiB, an '
+        'allocation proportional to a declared count of 10**7 or more does '
+        'not fit); finally each bystander completes a fixed exchange. '
         'Non-trivial: the sequence contains a frame that decodes to an '
         'allowed packet type on a namespace shared with a bystander.')
 ASSUMPTIONS = [
@@ -358,7 +361,7 @@ def _run(case, w):
             raise Violation('resource-graph-growth',
                             'step %d frame len %d: %d -> %d objects'
                             % (step, flen, g0, g1))
-        if peak > 96 * 1024 + 400 * flen:
+        if peak > 2 * 1024 * 1024 + 400 * flen:
             raise Violation('resource-peak-memory',
                             'step %d frame len %d: peak %d bytes'
                             % (step, flen, peak))
